@@ -7,6 +7,7 @@ package crash
 import (
 	"fmt"
 	"math/rand/v2"
+	"sort"
 	"strings"
 	"sync"
 	"sync/atomic"
@@ -139,6 +140,11 @@ type Verdict struct {
 
 // match finds the legal state equal to canon.
 func (t *Tracker) match(canon string, b bounds) Verdict {
+	return t.matchRender(canon, b, nil)
+}
+
+// matchRender is match with a custom rendering of states (nil = full state).
+func (t *Tracker) matchRender(canon string, b bounds, render func(st *model.State) string) Verdict {
 	t.mu.Lock()
 	units := t.units[:b.issued+1]
 	t.mu.Unlock()
@@ -148,7 +154,7 @@ func (t *Tracker) match(canon string, b bounds) Verdict {
 	}
 	// A. literal prefix states
 	for p := b.issued; p >= lo; p-- {
-		if units[p].canon == canon {
+		if (render == nil && units[p].canon == canon) || (render != nil && render(units[p].state) == canon) {
 			return Verdict{OK: true, Prefix: p, Q: p, State: units[p].state}
 		}
 	}
@@ -171,7 +177,7 @@ func (t *Tracker) match(canon string, b bounds) Verdict {
 				continue
 			}
 			units[q].apply(st)
-			if q >= b.ing && lost > 0 && dbcheck.CanonFull(st) == canon {
+			if q >= b.ing && lost > 0 && ((render == nil && dbcheck.CanonFull(st) == canon) || (render != nil && render(st) == canon)) {
 				return Verdict{OK: true, Prefix: p, Q: q, Mixed: true, State: st, LostBatch: lost}
 			}
 		}
@@ -200,6 +206,112 @@ type Harness struct {
 	matchedAhead          int64 // clones that contained an un-acknowledged unit
 	mixed                 int64
 	windows               map[string]int64
+
+	// version oracle (C22)
+	versionOracle bool
+	vmu           sync.Mutex
+	versions      []string // signatures of installed versions, in install order
+	pendingV      []pendingVersion
+	versionChecks int64
+	ckptN         int
+}
+
+type pendingVersion struct {
+	sig   string
+	lo    int
+	where string
+}
+
+// versionSig renders the table layout of a DB: per level the tables with file
+// number, bounds, sequence numbers, size, backing and blob references.
+func versionSig(db *pebble.DB) string {
+	lv, err := db.SSTables()
+	if err != nil {
+		return "error: " + err.Error()
+	}
+	var sb strings.Builder
+	for l, ts := range lv {
+		var rows []string
+		for _, t := range ts {
+			rows = append(rows, fmt.Sprintf("%06d[%s-%s]#%d-%d sz=%d virt=%v back=%d blobs=%v", t.FileNum, t.Smallest.Pretty(nil2fmt), t.Largest.Pretty(nil2fmt),
+				t.SmallestSeqNum, t.LargestSeqNum, t.Size, t.Virtual, t.BackingSSTNum, t.GetBlobReferenceFiles()))
+		}
+		sort.Strings(rows)
+		fmt.Fprintf(&sb, "L%d: %s\n", l, strings.Join(rows, " | "))
+	}
+	return sb.String()
+}
+
+func nil2fmt(k []byte) fmt.Formatter { return keyFmt(k) }
+
+type keyFmt []byte
+
+func (k keyFmt) Format(s fmt.State, c rune) { fmt.Fprintf(s, "%q", []byte(k)) }
+
+func (h *Harness) recordVersion(db *pebble.DB) {
+	sig := versionSig(db)
+	h.vmu.Lock()
+	if n := len(h.versions); n == 0 || h.versions[n-1] != sig {
+		h.versions = append(h.versions, sig)
+	}
+	h.vmu.Unlock()
+}
+
+// checkVersionOf opens the clone read-only and remembers its version for the
+// end-of-history comparison.
+func (h *Harness) checkVersionOf(fs *vfs.MemFS, lo int, where string) {
+	o := dbcheck.MakeOptions(h.Run.Cfg, fs, nil)
+	o.FormatMajorVersion = pebble.FormatMinSupported
+	o.ReadOnly = true
+	o.DebugCheck = nil
+	db, err := pebble.Open(h.Run.Dir, o)
+	if err != nil {
+		h.Run.FailMatch("recovery-open-failed", nil, "crash at %s: read-only Open of the crash clone failed: %v", where, err)
+		return
+	}
+	sig := versionSig(db)
+	db.Close()
+	h.vmu.Lock()
+	h.pendingV = append(h.pendingV, pendingVersion{sig: sig, lo: lo, where: where})
+	h.vmu.Unlock()
+}
+
+// finishVersions verifies every remembered clone version against the versions
+// installed at or after the clone's lower bound.
+func (h *Harness) finishVersions() {
+	h.vmu.Lock()
+	defer h.vmu.Unlock()
+	for _, p := range h.pendingV {
+		ok := false
+		for j := p.lo; j < len(h.versions); j++ {
+			if j >= 0 && h.versions[j] == p.sig {
+				ok = true
+				break
+			}
+		}
+		h.versionChecks++
+		if !ok {
+			older := -1
+			for j := 0; j < p.lo && j < len(h.versions); j++ {
+				if h.versions[j] == p.sig {
+					older = j
+				}
+			}
+			lo := p.lo
+			if lo < 0 {
+				lo = 0
+			}
+			want := ""
+			if lo < len(h.versions) {
+				want = h.versions[lo]
+			}
+			h.Run.FailMatch("recovered-version-illegal", map[string]any{"older_version_index": older},
+				"crash at %s: the recovered version equals none of the versions installed at or after version #%d (it equals older version #%d; -1 = never installed)\nrecovered:\n%s\nversion #%d:\n%s",
+				p.where, p.lo, older, clip(p.sig), lo, clip(want))
+			return
+		}
+	}
+	h.pendingV = nil
 }
 
 func (h *Harness) injector() errorfs.Injector {
@@ -237,9 +349,21 @@ func (h *Harness) cloneAndCheck(where string, idx int64) {
 		} else if pct == 100 {
 			cfg.RNG = rand.New(rand.NewPCG(1, 1))
 		}
+		vlo := 0
+		if h.versionOracle {
+			h.vmu.Lock()
+			vlo = len(h.versions) - 1
+			h.vmu.Unlock()
+		}
 		clone := h.mem.CrashClone(cfg)
 		b = h.T.after(b)
 		atomic.AddInt64(&h.clones, 1)
+		if h.versionOracle {
+			h.checkVersionOf(clone, vlo, fmt.Sprintf("%s survive=%d%%", where, pct))
+			if h.Run.Failed() {
+				return
+			}
+		}
 		h.checkClone(clone, b, fmt.Sprintf("%s survive=%d%%", where, pct), 0, idx)
 		if h.Run.Failed() {
 			return
@@ -368,6 +492,7 @@ type Options struct {
 	Knobs      dbcheck.Knobs
 	CloneEvery int
 	Depth      int
+	VersionOracle bool // C22: recovered version must be one of the installed versions
 	AllowMixed bool // C10/C12: a batch-prefix ∪ later-ingests state is legal ("contains every durable unit")
 	Restarts   int  // crash/restart cycles inside the history (C11)
 	Setup      func(r *dbcheck.Run)
@@ -376,13 +501,25 @@ type Options struct {
 
 // RunHistory executes one crash history.
 func RunHistory(R *vcommon.Report, o Options, caseIdx int, rng *rand.Rand) *Harness {
-	h := &Harness{R: R, CloneEvery: o.CloneEvery, Depth: o.Depth, allowMixed: o.AllowMixed, seed: vcommon.Seed()*1000003 + uint64(caseIdx)}
+	h := &Harness{R: R, CloneEvery: o.CloneEvery, Depth: o.Depth, allowMixed: o.AllowMixed, versionOracle: o.VersionOracle, seed: vcommon.Seed()*1000003 + uint64(caseIdx)}
 	h.mem = vfs.NewCrashableMem()
 	fs := errorfs.Wrap(h.mem, h.injector())
 	restartsLeft := o.Restarts
 	run := dbcheck.NewRunFS(R, o.Prop, o.Knobs, caseIdx, rng, fs, func(r *dbcheck.Run) {
 		if o.Setup != nil {
 			o.Setup(r)
+		}
+		if o.VersionOracle {
+			r.OptsHook = func(po *pebble.Options) {
+				prev := po.DebugCheck
+				po.DebugCheck = func(db *pebble.DB) error {
+					h.recordVersion(db)
+					if prev != nil {
+						return prev(db)
+					}
+					return nil
+				}
+			}
 		}
 		r.NoFinalClose = true
 	})
@@ -416,6 +553,11 @@ func RunHistory(R *vcommon.Report, o Options, caseIdx int, rng *rand.Rand) *Harn
 		h.cloneAndCheck("end-of-history", int64(1<<41))
 	}
 	run.CloseAll()
+	if o.VersionOracle && !run.Failed() {
+		h.finishVersions()
+		R.Count("recovered_versions_checked", h.versionChecks)
+		R.Count("versions_installed", int64(len(h.versions)))
+	}
 	R.Count("crash_clones_taken", h.clones)
 	R.Count("clone_opens_audited", h.opens)
 	R.Count("nested_recovery_crashes", h.nested)
@@ -451,6 +593,13 @@ func (h *Harness) crashRestart() {
 	}
 	h.T = newTracker(v.State, int(r.DB().FormatMajorVersion()))
 	r.Hook = h.T
+	if h.versionOracle {
+		h.finishVersions()
+		h.vmu.Lock()
+		h.versions = nil
+		h.vmu.Unlock()
+		h.recordVersion(r.DB())
+	}
 	r.Count("crash_restarts", 1)
 	h.enabled.Store(true)
 }
@@ -513,4 +662,123 @@ func (h *Harness) durableIterStep(r *dbcheck.Run) {
 // DurableIterExtra returns the extra step for C13.
 func DurableIterExtra(h *Harness) []dbcheck.ExtraStep {
 	return []dbcheck.ExtraStep{{Weight: 14, F: h.durableIterStep}}
+}
+
+
+// checkpointStep implements the C38 oracle: a checkpoint, once opened, must
+// hold a prefix state of the source history that contains every unit that was
+// durable (or, with WithFlushedWAL, committed) before the Checkpoint call; with
+// restricted spans only keys inside the spans are compared.
+func (h *Harness) checkpointStep(r *dbcheck.Run) {
+	if r.Failed() {
+		return
+	}
+	rng := r.Rng()
+	h.ckptN++
+	dir := fmt.Sprintf("ckpt-%d", h.ckptN)
+	var opts []pebble.CheckpointOption
+	flushWAL := rng.IntN(2) == 0
+	if flushWAL {
+		opts = append(opts, pebble.WithFlushedWAL())
+	}
+	var spans [][2]string
+	if rng.IntN(3) == 0 {
+		var cs []pebble.CheckpointSpan
+		a, b := r.RandRange()
+		spans = append(spans, [2]string{a, b})
+		if rng.IntN(2) == 0 {
+			c, d := r.RandRange()
+			if model.Cmp(b, c) <= 0 {
+				spans = append(spans, [2]string{c, d})
+			} else if model.Cmp(d, a) <= 0 {
+				spans = [][2]string{{c, d}, {a, b}}
+			}
+		}
+		for _, sp := range spans {
+			cs = append(cs, pebble.CheckpointSpan{Start: []byte(sp[0]), End: []byte(sp[1])})
+		}
+		opts = append(opts, pebble.WithRestrictToSpans(cs))
+	}
+	b := h.T.before()
+	r.Log("Checkpoint(%s) flushWAL=%v spans=%v", dir, flushWAL, spans)
+	if err := r.DB().Checkpoint(dir, opts...); err != nil {
+		r.Fail("checkpoint-error", "Checkpoint: %v", err)
+		return
+	}
+	b = h.T.after(b)
+	lower := b.d
+	if flushWAL && !r.Cfg.DisableWAL {
+		lower = b.acked
+	}
+	// open the checkpoint while the source keeps running
+	o := dbcheck.MakeOptions(r.Cfg, r.Opts().FS, nil)
+	o.FormatMajorVersion = pebble.FormatMinSupported
+	o.DisableAutomaticCompactions = true
+	db, err := pebble.Open(dir, o)
+	if err != nil {
+		r.Fail("checkpoint-open-failed", "Open(checkpoint): %v", err)
+		return
+	}
+	defer func() {
+		db.Close()
+		r.Opts().FS.RemoveAll(dir)
+	}()
+	if err := db.CheckLevels(nil); err != nil {
+		r.Fail("checkpoint-check-levels", "CheckLevels on the checkpoint: %v", err)
+		return
+	}
+	r.Count("checkpoints_opened", 1)
+	if len(spans) == 0 {
+		canon, err := dbcheck.ReadCanon(db.NewIter, nil)
+		if err != nil {
+			r.Fail("checkpoint-read-failed", "reading the checkpoint: %v", err)
+			return
+		}
+		v := h.T.match(canon, bounds{d: lower, ing: b.ing, acked: b.acked, issued: b.issued})
+		if !v.OK {
+			r.FailMatch("checkpoint-state-illegal", nil,
+				"checkpoint (flushWAL=%v) equals no prefix state in [%d,%d]\ncheckpoint:\n%s\nstate after unit %d:\n%s\nunits:%s",
+				flushWAL, lower, b.issued, clip(canon), lower, clip(h.canonOf(lower)), h.unitList(bounds{d: lower, issued: b.issued}))
+			return
+		}
+		if v.Mixed {
+			r.ViolateSoft("checkpoint-non-prefix", map[string]any{"missing": "unsynced-batches-only", "present": "ingest-or-excise"},
+				"checkpoint is not a prefix of the history: batch prefix up to unit %d plus later ingests/excises up to %d", v.Prefix, v.Q)
+		}
+		h.R.Distinct("ckpt", r.Case, r.Step(), v.Prefix, flushWAL)
+		return
+	}
+	// restricted spans: compare inside the spans only
+	var sb strings.Builder
+	for _, sp := range spans {
+		c, err := dbcheck.ReadCanon(db.NewIter, &pebble.IterOptions{LowerBound: []byte(sp[0]), UpperBound: []byte(sp[1])})
+		if err != nil {
+			r.Fail("checkpoint-read-failed", "reading the checkpoint: %v", err)
+			return
+		}
+		sb.WriteString(c)
+		sb.WriteString("--\n")
+	}
+	got := sb.String()
+	v := h.T.matchRender(got, bounds{d: lower, ing: b.ing, acked: b.acked, issued: b.issued}, func(st *model.State) string { return dbcheck.CanonSpans(st, spans) })
+	if !v.OK {
+		h.T.mu.Lock()
+		last := h.T.units[b.issued].state
+		h.T.mu.Unlock()
+		r.FailMatch("checkpoint-state-illegal", map[string]any{"restricted": true},
+			"span-restricted checkpoint (flushWAL=%v, spans %q) equals no prefix state in [%d,%d] inside its spans\ncheckpoint:\n%s\nmodel at %d:\n%s\nunits:%s",
+			flushWAL, spans, lower, b.issued, clip(got), b.issued, clip(dbcheck.CanonSpans(last, spans)), h.unitList(bounds{d: lower, issued: b.issued}))
+		return
+	}
+	if v.Mixed {
+		r.ViolateSoft("checkpoint-non-prefix", map[string]any{"missing": "unsynced-batches-only", "present": "ingest-or-excise"},
+			"span-restricted checkpoint is not a prefix of the history: batch prefix up to unit %d plus later ingests/excises up to %d", v.Prefix, v.Q)
+	}
+	h.R.Distinct("ckpt-spans", r.Case, r.Step(), v.Prefix, flushWAL)
+	r.Count("span_restricted_checkpoints", 1)
+}
+
+// CheckpointExtra returns the extra step for C38.
+func CheckpointExtra(h *Harness) []dbcheck.ExtraStep {
+	return []dbcheck.ExtraStep{{Weight: 10, F: h.checkpointStep}}
 }
